@@ -123,7 +123,14 @@ func (g *c14Gen) grouping() (jast.Node, interface{}) {
 		}[r.Intn(4)]
 		return &jast.Group{X: &jast.Name{V: r.Pick("nothing", "missing")}, Pairs: [][2]jast.Node{{k, g.valExpr()}}}, O{"arr": items}
 	}
-	switch r.Intn(6) {
+	switch r.Intn(7) {
+	case 6:
+		// the grouped sequence is ordered first: the items of a group are in that
+		// order (the members of the object are unordered, the grouped items are not)
+		g.tags["grouping-of-an-ordered-sequence"] = true
+		srt := &jast.Sort{X: &jast.Name{V: "arr"}, Terms: []jast.SortTerm{{Dir: r.Pick(">", "<", ""), X: &jast.Name{V: r.Pick("id", "v")}}}}
+		ordered := append([][2]jast.Node{{g.keyExpr(), &jast.Array{Items: []jast.Node{&jast.Name{V: "id"}}}}}, pairs...)
+		return &jast.Group{X: srt, Pairs: ordered}, O{"arr": items}
 	case 5:
 		// the grouped items are the units of an array-constructor step: one unit
 		// is one item (not the list of items), however many there are
